@@ -184,3 +184,6 @@ def run(chk, F, tier):
 def run_all(chk, fsets, tier):
     import facts
     run(chk, facts.load(fsets[0]), tier)
+    # bytes handed to the sink reach it only if the bit writer flushes the adapter on every flush/drop/unwrap
+    import deps
+    deps.writer_structure(chk, facts.load(fsets[0]), ("W3.drop",), "A5.flush", "flush, drop and into_inner of the bit writer end by flushing the word sink, whose error is reported (C01)")
